@@ -1,1 +1,2 @@
 import Cpppo.Props.C19
+import Cpppo.Props.C20
